@@ -14,8 +14,8 @@ import (
 )
 
 func init() {
-	register("C05", checkC05, "The end-to-end statement (every multiset of fields, every device memory image) is NOT decided: it needs execution. Decided necessary conditions: R5.1 for each of the 13 register field types the number of registers Field.registerSize reserves (evaluated symbolically per type constant, ceil(Length/2) for strings) equals the number of registers the accessor chosen by Field.ExtractFrom for that type reads (from its result type / length parameter). R5.2 argument roles: each ExtractFrom case passes the field's own Address and exactly the attribute each accessor parameter stands for (bit, high-byte flag, byte order, length); extractRegisterFields hands the request's StartAddress to AsRegisters, the responses' AsRegisters hand (payload, start) to NewRegisters, extractCoilFields hands (request start, field address) to IsCoilSet in this order. R5.3 in split the request descriptor's StartAddress / UnitID are the same batch values that were given to the packet constructor, Fields is the batch's field list and ServerAddress its address. R5.4 both extraction loops visit every field once: per iteration either return (strict mode, nil slice, wrapped error) or append exactly one FieldValue whose Field is the loop element and whose Value/Error are the pair just obtained; the lenient path returns the partial-error sentinel iff an error was seen. R5.5 the slot merge keeps the widest size (the store back into the slot table carries the updated size). R5.2 also requires that a value spanning several registers is decoded by an accessor that takes the field's byte order. R5.6 extraction is effect-free (C13 analysis from the extraction roots). R5.7 every read-request constructor split calls accepts every quantity 1..limit (its error returns are unreachable in that range). R5.8 every batch, also the follow-up ones after a split, carries its group's address and unit id. R5.8 also covers the grouping key's injectivity. R5.9 Field.Validate accepts every well-formed field (defined type, bit <= 15, string length >= 1, address + register count <= 65536): no other error return is reachable. R5.10 the builder methods that accept definitions from the caller (Add, AddAll) write to no field of a Field value. R5.11 = C04 R4.1/R4.4/R4.W: the window NewRegisters builds has no wrap-around and in-window accesses succeed. R5.12 building requests is read-only on the builder: no write to memory derived from the builder's field list, no store through the *Builder receiver, no package-level state on the path of any method returning []BuilderRequest (derived-pointer analysis). R5.4 also: Field, Value and Error are each assigned on every iteration before the record is appended. R5.12 clause 3: no function on the build path stores to a field of a Field value. R5.13 = C04 R4.3 (every typed accessor decodes with the order argument, or the default iff the argument is 0, for word order and byte order alike).")
-	register("C06", checkC06, "Optimality/tightness of the greedy batching for all field lists is NOT decided (algorithmic). Decided: R6.1 every request descriptor appended in split is dominated by a packet.New*Request* call on the batch's own unit id / start / quantity and by the error test, so quantity limits follow from the validating constructors (C01 R1.2). R6.2 the grouping key is an injective function of (server address, unit id, kind): a constant format with a separator between verbs whose trailing operands are integers/bools, or a comparable struct key; both batch-initialisation sites take address and unit id from the group and the start address from the current slot. R6.3 the kind filter skips a field exactly when its kind differs from the requested kind (truth table over the 4 valuations through the CFG), the requested kind is 'coils' exactly for the FC1/FC2 targets, each target constant calls the constructor of its function code and framing, and the address limit is the coil limit exactly for coil groups, with both limit constants equal to the specification's 2000/125. R6.W no narrow-typed arithmetic in batchToRequests / AddField can wrap (slot end and span are computed without 16-bit wrap-around), and the conversion of the span to the 16-bit quantity is proven exact. R6.4 = R5.7 (a batch filled to the limit can be constructed). R6.5 the encoders of the request types split constructs write unit id, start and quantity as the specification lays them out (C01 R1.1 for those eight types). R6.6 = C05 R5.1: the slot size the batcher reserves equals the registers the field's type occupies. R6.8 = R5.12 (building is read-only on the builder; a memoised result would have to be stored in it). R6.9 the comparator handed to sort in batchToRequests is the ascending numeric order of an unsigned slot field the batching loop reads, for all values (abstract interpretation of Less with rule W; ties free). R6.9 also: the slice handed to sort is the slice the batching loop walks. R6.8 includes the stale-element-pointer clause of R5.12.")
+	register("C05", checkC05, "The end-to-end statement (every multiset of fields, every device memory image) is NOT decided: it needs execution. Decided necessary conditions: R5.1 for each of the 13 register field types the number of registers Field.registerSize reserves (evaluated symbolically per type constant, ceil(Length/2) for strings) equals the number of registers the accessor chosen by Field.ExtractFrom for that type reads (from its result type / length parameter). R5.2 argument roles: each ExtractFrom case passes the field's own Address and exactly the attribute each accessor parameter stands for (bit, high-byte flag, byte order, length); extractRegisterFields hands the request's StartAddress to AsRegisters, the responses' AsRegisters hand (payload, start) to NewRegisters, extractCoilFields hands (request start, field address) to IsCoilSet in this order. R5.3 in split the request descriptor's StartAddress / UnitID are the same batch values that were given to the packet constructor, Fields is the batch's field list and ServerAddress its address. R5.4 both extraction loops visit every field once: per iteration either return (strict mode, nil slice, wrapped error) or append exactly one FieldValue whose Field is the loop element and whose Value/Error are the pair just obtained; the lenient path returns the partial-error sentinel iff an error was seen. R5.5 the slot merge keeps the widest size (the store back into the slot table carries the updated size). R5.2 also requires that a value spanning several registers is decoded by an accessor that takes the field's byte order. R5.6 extraction is effect-free (C13 analysis from the extraction roots). R5.7 every read-request constructor split calls accepts every quantity 1..limit (its error returns are unreachable in that range). R5.8 every batch, also the follow-up ones after a split, carries its group's address and unit id. R5.8 also covers the grouping key's injectivity. R5.9 Field.Validate accepts every well-formed field (defined type, bit <= 15, string length >= 1, address + register count <= 65536): no other error return is reachable. R5.10 the builder methods that accept definitions from the caller (Add, AddAll) write to no field of a Field value. R5.11 = C04 R4.1/R4.4/R4.W: the window NewRegisters builds has no wrap-around and in-window accesses succeed. R5.12 building requests is read-only on the builder: no write to memory derived from the builder's field list, no store through the *Builder receiver, no package-level state on the path of any method returning []BuilderRequest (derived-pointer analysis). R5.4 also: Field, Value and Error are each assigned on every iteration before the record is appended. R5.12 clause 3: no function on the build path stores to a field of a Field value. R5.13 = C04 R4.3 (every typed accessor decodes with the order argument, or the default iff the argument is 0, for word order and byte order alike). R5.14 = C04 R4.8 (no float-width detour between the decode and the reported value). R5.15 = C06 R6.9 (the slots are sorted by a comparator that is the ascending address order for all values, and the sorted slice is the one the batching loop walks; sort.Sort/sort.Slice or slices.SortFunc).")
+	register("C06", checkC06, "Optimality/tightness of the greedy batching for all field lists is NOT decided (algorithmic). Decided: R6.1 every request descriptor appended in split is dominated by a packet.New*Request* call on the batch's own unit id / start / quantity and by the error test, so quantity limits follow from the validating constructors (C01 R1.2). R6.2 the grouping key is an injective function of (server address, unit id, kind): a constant format with a separator between verbs whose trailing operands are integers/bools, or a comparable struct key; both batch-initialisation sites take address and unit id from the group and the start address from the current slot. R6.3 the kind filter skips a field exactly when its kind differs from the requested kind (truth table over the 4 valuations through the CFG), the requested kind is 'coils' exactly for the FC1/FC2 targets, each target constant calls the constructor of its function code and framing, and the address limit is the coil limit exactly for coil groups, with both limit constants equal to the specification's 2000/125. R6.W no narrow-typed arithmetic in batchToRequests / AddField can wrap (slot end and span are computed without 16-bit wrap-around), and the conversion of the span to the 16-bit quantity is proven exact. R6.4 = R5.7 (a batch filled to the limit can be constructed). R6.5 the encoders of the request types split constructs write unit id, start and quantity as the specification lays them out (C01 R1.1 for those eight types). R6.6 = C05 R5.1: the slot size the batcher reserves equals the registers the field's type occupies. R6.8 = R5.12 (building is read-only on the builder; a memoised result would have to be stored in it). R6.9 the comparator handed to sort in batchToRequests is the ascending numeric order of an unsigned slot field the batching loop reads, for all values (abstract interpretation of Less with rule W; ties free). R6.9 also: the slice handed to sort is the slice the batching loop walks; a three-way comparator given to slices.SortFunc must be negative exactly when the field is smaller (cmp.Compare on the field is accepted by contract). R6.8 includes the stale-element-pointer clause of R5.12.")
 }
 
 // accessPath: "root.f1.f2" for a load (or address) of a field chain rooted at an alloc/param/phi.
@@ -59,6 +59,18 @@ func checkC05(c *Ctx, r *Report) {
 	c05Tables(c, r)
 	c05Plumbing(c, r)
 	c05Split(c, r, "R5.3")
+	// R5.15 = C06 R6.9: the batching loop only extends a batch upwards, so a field lands in the batch
+	// that covers its address only if the slots are walked in ascending address order
+	{
+		tmp := newReport(r.Prop, r.Tier)
+		c06Comparator(c, tmp)
+		r.instance("R5.15", copyItems(tmp, r, "R6.9", "R5.15"))
+		r.floor("R5.15", 2)
+	}
+	// R5.14 = C04 R4.8: the float a field reports is the decoded bit pattern (no float-width detour
+	// between math.FloatNNfrombits and the FieldValue)
+	floatBitIdentity(c, r, "R5.14", c.allFuncs("packet", ""))
+	r.floor("R5.14", 4)
 	// R5.8: a request asks the device the fields belong to: every batch (also the follow-up ones
 	// after a split) carries its group's address and unit id (C06 R6.2 batch initialisation)
 	{
@@ -1772,7 +1784,7 @@ func builderReadOnly(c *Ctx, r *Report, rule string) {
 // comparator with rule W on its narrow arithmetic; ties may be broken in any way).
 func c06Comparator(c *Ctx, r *Report) {
 	bt := c.fnMust("", "batchToRequests")
-	var less *ssa.Function
+	var less, cmp3 *ssa.Function
 	var sortCall ssa.Instruction
 	for _, b := range bt.Blocks {
 		for _, in := range b.Instrs {
@@ -1781,7 +1793,25 @@ func c06Comparator(c *Ctx, r *Report) {
 				continue
 			}
 			sc := call.Common().StaticCallee()
-			if sc == nil || sc.Pkg == nil || sc.Pkg.Pkg.Path() != "sort" {
+			if sc == nil {
+				continue
+			}
+			if o := sc.Origin(); o != nil && o.Pkg != nil && o.Pkg.Pkg.Path() == "slices" && (o.Name() == "SortFunc" || o.Name() == "SortStableFunc") && len(call.Common().Args) == 2 {
+				// three-way comparator over the elements themselves
+				fv := call.Common().Args[1]
+				if ct, ok := fv.(*ssa.ChangeType); ok {
+					fv = ct.X
+				}
+				switch f := fv.(type) {
+				case *ssa.Function:
+					cmp3, sortCall = f, in
+				case *ssa.MakeClosure:
+					cmp3, _ = f.Fn.(*ssa.Function)
+					sortCall = in
+				}
+				continue
+			}
+			if sc.Pkg == nil || sc.Pkg.Pkg.Path() != "sort" {
 				continue
 			}
 			switch sc.Name() {
@@ -1804,6 +1834,10 @@ func c06Comparator(c *Ctx, r *Report) {
 	}
 	r.instance("R6.9", 1)
 	id := fnID(bt)
+	if cmp3 != nil && cmp3.Blocks != nil && less == nil {
+		c06Comparator3(c, r, bt, cmp3, sortCall)
+		return
+	}
 	if less == nil || less.Blocks == nil {
 		r.undecided("R6.9", id, "the batching function does not sort the slots with a comparator of this module (sort.Sort / sort.Slice)", c.pos(bt.Pos()))
 		return
@@ -1940,6 +1974,195 @@ func c06Comparator(c *Ctx, r *Report) {
 	if !okAny {
 		r.fail("R6.9", id, "the comparator given to sort is not the ascending numeric order of the slot address for all values: the batching loop can meet a lower address after a higher one", c.pos(less.Pos()), detail, "comparator-not-ascending")
 	}
+}
+
+// c06Comparator3: R6.9 for slices.SortFunc / SortStableFunc: cmp(a, b) < 0 exactly when
+// a.F < b.F over the integers for one unsigned slot field F the batching loop reads (then the
+// order sort leaves is ascending in F). `return cmp.Compare(a.F, b.F)` is accepted by its
+// standard-library contract; anything else is interpreted abstractly with rule W.
+func c06Comparator3(c *Ctx, r *Report, bt, cmp3 *ssa.Function, sortCall ssa.Instruction) {
+	id := fnID(cmp3)
+	r.funcs[id] = true
+	if len(cmp3.Params) != 2 {
+		r.undecided("R6.9", id, "three-way comparator without two element parameters", c.pos(cmp3.Pos()))
+		return
+	}
+	elem := cmp3.Params[0].Type()
+	st, isStruct := elem.Underlying().(*types.Struct)
+	if !isStruct {
+		r.undecided("R6.9", id, "sorted elements are not structs", c.pos(cmp3.Pos()))
+		return
+	}
+	readInBatch := map[int]bool{}
+	for _, b := range bt.Blocks {
+		for _, in := range b.Instrs {
+			switch x := in.(type) {
+			case *ssa.FieldAddr:
+				if types.Identical(deref(x.X.Type()), elem) {
+					readInBatch[x.Field] = true
+				}
+			case *ssa.Field:
+				if types.Identical(x.X.Type(), elem) {
+					readInBatch[x.Field] = true
+				}
+			}
+		}
+	}
+	okAny, detail := false, ""
+	// the library contract form: a single `return cmp.Compare(a.F, b.F)`
+	if len(cmp3.Blocks) == 1 {
+		if ret, ok := cmp3.Blocks[0].Instrs[len(cmp3.Blocks[0].Instrs)-1].(*ssa.Return); ok && len(ret.Results) == 1 {
+			if call, ok := ret.Results[0].(*ssa.Call); ok {
+				if sc := call.Common().StaticCallee(); sc != nil && sc.Origin() != nil && sc.Origin().Pkg != nil && sc.Origin().Pkg.Pkg.Path() == "cmp" && sc.Origin().Name() == "Compare" && len(call.Common().Args) == 2 {
+					pa, ka, okA := fieldOfParam(call.Common().Args[0])
+					pb, kb, okB := fieldOfParam(call.Common().Args[1])
+					if okA && okB && pa == cmp3.Params[0] && pb == cmp3.Params[1] && ka == kb && readInBatch[ka] {
+						if bb, isB := st.Field(ka).Type().Underlying().(*types.Basic); isB && bb.Info()&types.IsUnsigned != 0 {
+							okAny = true
+							r.ok("R6.9", id, "the comparator given to slices.SortFunc is cmp.Compare on slot field "+st.Field(ka).Name()+" (which the batching loop reads): ascending numeric order", c.pos(sortCall.Pos()), true)
+						}
+					}
+				}
+			}
+		}
+	}
+	if !okAny {
+		an, fr := analyse(c, cmp3)
+		va, vb := fr.vals[cmp3.Params[0]], fr.vals[cmp3.Params[1]]
+		for k := 0; k < st.NumFields() && !okAny; k++ {
+			bb, isB := st.Field(k).Type().Underlying().(*types.Basic)
+			if !isB || bb.Info()&types.IsUnsigned == 0 || !readInBatch[k] {
+				continue
+			}
+			fa, okA := an.u.fieldOf(va, k).(AInt)
+			fb, okB := an.u.fieldOf(vb, k).(AInt)
+			if !okA || !okB {
+				continue
+			}
+			xa, xb := fa.a, fb.a
+			good := len(fr.returns) > 0
+			for _, rs := range fr.returns {
+				val, isInt := rs.vals[0].(AInt)
+				if !isInt || len(val.conds) > 0 {
+					good = false
+					detail = "result of the comparator is not an exact integer expression (possible wrap-around): " + describeAV(rs.vals[0])
+					continue
+				}
+				for _, cj := range rs.state {
+					if !infeasible(cj.with(atomLT(val.a, affConst(0))).with(atomGE(xa, xb))) {
+						good = false
+						detail = fmt.Sprintf("field %s: can report a before b although %s >= %s: %s", st.Field(k).Name(), xa.String(), xb.String(), truncate(cj.String(), 200))
+					}
+					if !infeasible(cj.with(atomGE(val.a, affConst(0))).with(atomLT(xa, xb))) {
+						good = false
+						detail = fmt.Sprintf("field %s: can deny a before b although %s < %s: %s", st.Field(k).Name(), xa.String(), xb.String(), truncate(cj.String(), 200))
+					}
+				}
+			}
+			if good {
+				okAny = true
+				r.ok("R6.9", id, "the three-way comparator given to slices.SortFunc is negative exactly when slot field "+st.Field(k).Name()+" (which the batching loop reads) is smaller, for every pair of values", c.pos(sortCall.Pos()), true)
+			}
+		}
+	}
+	// what was sorted is what the batching loop walks
+	if call, ok := sortCall.(*ssa.Call); ok {
+		sorted := call.Common().Args[0]
+		for {
+			switch x := sorted.(type) {
+			case *ssa.ChangeType:
+				sorted = x.X
+				continue
+			case *ssa.Convert:
+				sorted = x.X
+				continue
+			}
+			break
+		}
+		want := accessPath(sorted)
+		walked, same := 0, 0
+		for _, b := range bt.Blocks {
+			if !blockReaches(b, b) {
+				continue
+			}
+			for _, in := range b.Instrs {
+				ia, ok := in.(*ssa.IndexAddr)
+				if !ok {
+					continue
+				}
+				sl, ok := ia.X.Type().Underlying().(*types.Slice)
+				if !ok || !types.Identical(sl.Elem(), elem) {
+					continue
+				}
+				walked++
+				if ia.X == sorted || accessPath(ia.X) == want {
+					same++
+				}
+			}
+		}
+		r.instance("R6.9", 1)
+		if walked > 0 && same == walked {
+			r.ok("R6.9", fnID(bt), "the batching loop walks the very slice that was sorted", c.pos(sortCall.Pos()), true)
+		} else {
+			r.fail("R6.9", fnID(bt), "the batching loop walks a slice other than the one handed to sort (a sorted copy leaves the walk in definition order)", c.pos(sortCall.Pos()), fmt.Sprintf("sorted %s; %d of %d element reads in loops use it", want, same, walked), "sorted-slice-not-walked")
+		}
+	}
+	if !okAny {
+		r.fail("R6.9", id, "the comparator given to slices.SortFunc is not the ascending numeric order of the slot address for all values: the batching loop can meet a lower address after a higher one", c.pos(cmp3.Pos()), detail, "comparator-not-ascending")
+	}
+}
+
+// fieldOfParam: v is field k of a struct-valued parameter, read directly (ssa.Field) or through
+// the parameter's local spill copy (a local Alloc whose only store is the parameter).
+func fieldOfParam(v ssa.Value) (*ssa.Parameter, int, bool) {
+	switch x := v.(type) {
+	case *ssa.Field:
+		if p, ok := x.X.(*ssa.Parameter); ok {
+			return p, x.Field, true
+		}
+	case *ssa.UnOp:
+		if x.Op != token.MUL {
+			return nil, 0, false
+		}
+		fa, ok := x.X.(*ssa.FieldAddr)
+		if !ok {
+			return nil, 0, false
+		}
+		al, ok := fa.X.(*ssa.Alloc)
+		if !ok || al.Heap || al.Referrers() == nil {
+			return nil, 0, false
+		}
+		var par *ssa.Parameter
+		for _, ref := range *al.Referrers() {
+			switch st := ref.(type) {
+			case *ssa.Store:
+				if st.Addr != al {
+					return nil, 0, false
+				}
+				p, isP := st.Val.(*ssa.Parameter)
+				if !isP || par != nil {
+					return nil, 0, false
+				}
+				par = p
+			case *ssa.FieldAddr:
+				// reads of fields; a store through one of them would change the copy
+				if st.Referrers() != nil {
+					for _, r2 := range *st.Referrers() {
+						if s2, isS := r2.(*ssa.Store); isS && s2.Addr == st {
+							return nil, 0, false
+						}
+					}
+				}
+			case *ssa.DebugRef:
+			default:
+				return nil, 0, false
+			}
+		}
+		if par != nil {
+			return par, fa.Field, true
+		}
+	}
+	return nil, 0, false
 }
 
 func sortedElem(v ssa.Value) types.Type { return v.Type() }
